@@ -38,6 +38,7 @@ type pcCase struct {
 	Build      []pcStep `json:"build"`
 	EndWithSet bool     `json:"end_with_set"`
 	Big        int      `json:"big,omitempty"`      // number of 1 MiB values appended (multi-block streams)
+	Huge       int      `json:"huge,omitempty"`     // number of values larger than one 4 MiB block appended last (each fills a block on its own)
 	HotKeep    int      `json:"hot_keep,omitempty"` // a cache that shrank and is hot: HotKeep+HotDrop keys stored, HotDrop deleted again,
 	HotDrop    int      `json:"hot_drop,omitempty"` // the rest read 20 times each (high saved frequencies under a sketch sized for more entries)
 	TargetSize int      `json:"target_size"`
@@ -251,6 +252,12 @@ func pcBuild[K comparable, V any](c pcCase, cd pcCodec[K, V], x *verifkit.Ctx) (
 			cost = 7
 		}
 		y.set(cd.key(1000+i), cd.val(seq, 1<<20), cost, 0)
+	}
+	for i := 0; i < c.Huge; i++ {
+		// a value whose encoding alone exceeds the 4 MiB block buffer; stored last it is the most
+		// recently used entry of its region, i.e. the first one written into a block (seeded C11g)
+		seq++
+		y.set(cd.key(1500+i), cd.val(seq, 4<<20+300000+i*4096), 1, 0)
 	}
 	if c.EndWithSet {
 		// a final insert makes the policy demote/evict so that every region is within its capacity
@@ -544,7 +551,13 @@ func genPersist(forC12 bool) func(t *rapid.T) pcCase {
 				c.MaxSize = 8 * c.Big
 			}
 		}
-		if !forC12 && c.Big == 0 && rapid.IntRange(0, 7).Draw(t, "hotShrunk") == 0 {
+		if !forC12 && c.Type == "bytes" && c.Big == 0 && rapid.IntRange(0, 9).Draw(t, "hugeClass") == 0 {
+			c.Huge = rapid.IntRange(1, 2).Draw(t, "huge")
+			if c.MaxSize < 20 {
+				c.MaxSize = 20
+			}
+		}
+		if !forC12 && c.Big == 0 && c.Huge == 0 && rapid.IntRange(0, 7).Draw(t, "hotShrunk") == 0 {
 			c.MaxSize = 400
 			c.HotKeep = rapid.IntRange(30, 90).Draw(t, "hotKeep")
 			c.HotDrop = rapid.IntRange(2*c.HotKeep, 3*c.HotKeep).Draw(t, "hotDrop")
@@ -668,7 +681,7 @@ func TestVerifC11(t *testing.T) {
 	vkOwnPipeline()
 	verifkit.Run(t, verifkit.Spec[pcCase]{
 		ID: "C11", Gen: genPersist(false), Exec: dispatchC11,
-		Rule:        "C11: rapid draws key/value types (int->int, string->string incl. empty, struct->struct with zero-valued fields, int->[]byte), MaxSize 1..400, saver uptime 0..30 days, a build script (Set with mixed costs and TTLs on every wheel level, reads, deletes, hit-ratio samples that move the adaptive split, time advances), optionally several 1 MiB values (multi-block stream), a target size (same/smaller/1/larger), the time between save and load, and up to 50 further operations on the loaded cache; non-trivial = mixed costs with a moved split, or a multi-block stream, or a smaller target, or an entry that expired between save and load",
+		Rule:        "C11: rapid draws key/value types (int->int, string->string incl. empty, struct->struct with zero-valued fields, int->[]byte), MaxSize 1..400, saver uptime 0..30 days, a build script (Set with mixed costs and TTLs on every wheel level, reads, deletes, hit-ratio samples that move the adaptive split, time advances), optionally several 1 MiB values (multi-block stream) or one or two values larger than a 4 MiB block stored last, a target size (same/smaller/1/larger), the time between save and load, and up to 50 further operations on the loaded cache; non-trivial = mixed costs with a moved split, or a multi-block stream, or a smaller target, or an entry that expired between save and load",
 		Assumptions: pcAssumptions,
 	})
 }
